@@ -157,6 +157,38 @@ def main(tier, seed):
     proof = prove(PROP)
     A = uexpr.Atoms(wd, rng, n_prefixed=24)
     ncases = 140 if tier == "quick" else 1500
+    # pairs (atom, differently-typed equivalent): another atom of the same dimension rescaled to the same magnitude, the
+    # inverse of an atom with inverse signature, or a product / quotient of two atoms with the same signature
+    def hsig(dm):
+        return (tuple(sorted(dm[0].items())), tuple(sorted((b, Fraction(e)) for b, e in dm[1].items())))
+    plain = [k for k in A.atoms if not A.atoms[k]["has_origin"]]
+    by_dim = {}
+    for k in plain:
+        by_dim.setdefault(tuple(sorted(A.atoms[k]["dim"].items())), []).append(k)
+    equiv_partners = []
+    for ks in by_dim.values():
+        for a in ks:
+            for b in ks:
+                if a != b and A.sig(a) != A.sig(b):
+                    ratio = uexpr.add(A.atoms[a]["mag"], A.atoms[b]["mag"], -1)
+                    if all(abs(Fraction(e)) <= 40 and (bb == "pi" or int(bb[1:]) < 10 ** 6) for bb, e in ratio.items()):
+                        equiv_partners.append((("atom", a), ("scale", ("atom", b), uexpr.scale_of(ratio))))
+    sig_of = {}
+    for k in plain:
+        sig_of.setdefault(hsig(uexpr.sem(("atom", k), A)), k)
+    some = rng.sample(plain, min(len(plain), 40))
+    for b in some:
+        t = ("pow", ("atom", b), Fraction(-1))
+        a = sig_of.get(hsig(uexpr.sem(t, A)))
+        if a and a != b:
+            equiv_partners.append((("atom", a), t))
+        for c in some:
+            for t in (("mul", ("atom", b), ("atom", c)), ("div", ("atom", b), ("atom", c))):
+                a = sig_of.get(hsig(uexpr.sem(t, A)))
+                if a and a not in (b, c) and b != c:
+                    equiv_partners.append((("atom", a), t))
+    rng.shuffle(equiv_partners)
+    equiv_partners = equiv_partners[:400]
     cases = []
     while len(cases) < ncases:
         pool = uexpr.twin_free_pool(rng, A, 10)
@@ -167,6 +199,14 @@ def main(tier, seed):
             u2 = ("pow", u1, Fraction(-1)) if rng.random() < 0.6 else ("scale", ("pow", u1, Fraction(-1)), rng.choice(uexpr.SCALES[:6]))
         elif r < 0.4:
             u2 = u1 if rng.random() < 0.5 else ("scale", u1, rng.choice(uexpr.SCALES[:6]))     # quotient collapses / does not
+        elif r < 0.55 and equiv_partners:
+            # quantity-EQUIVALENT partner of a different C++ type (Feet vs Inches*mag<12>(), Hertz vs 1/Seconds, N vs kg*m/s^2):
+            # the quotient must still collapse to a raw number, the product with the inverse too
+            u1, u2 = rng.choice(equiv_partners)
+            if rng.random() < 0.5:
+                u1, u2 = u2, u1
+            if rng.random() < 0.3:
+                u2 = ("pow", u2, Fraction(-1))              # product form
         else:
             u2 = gen_unit(rng, A, pool)
         # twin guard: all atoms of both must be twin-free
@@ -191,7 +231,7 @@ def main(tier, seed):
     nchunks = 16
     npts = 40 if tier == "quick" else 120
     inc = "\n".join(f'#include "{h}"' for h in A.headers())
-    stats = {"cases": len(cases), "configs": [], "values": 0, "raw_products": 0, "raw_quotients": 0, "div_forbidden": 0, "pow_cases": 0,
+    stats = {"cases": len(cases), "equivalent_partner_pool": len(equiv_partners), "configs": [], "values": 0, "raw_products": 0, "raw_quotients": 0, "div_forbidden": 0, "pow_cases": 0,
              "neg_probes": 0, "asraw_probes": 0}
     pow_cases = [(rng.choice(list(A.atoms)), rng.choice(REPS)) for _ in range(40 if tier == "quick" else 300)]
     results, presults = {}, {}
